@@ -171,3 +171,6 @@ m("C01", "insns.py", 'opcode_inline_value, operand_encoding = stub.encode(operan
 m("C04", "insns.py", 'opcode_inline_value, operand_encoding = stub.encode(operand_expr, {**state, "rel_address": state["emit_address"] + 2 + len(operands_encoding)})',
   'operand_state = dict(state)\n            operand_state["rel_address"] = state["emit_address"] + 2 + len(operands_encoding)\n            opcode_inline_value, operand_encoding = stub.encode(operand_expr, operand_state)', None)
 m("C03", "operators.py", "            return Deferred[self.return_type](lambda: invoke(wait(operand)))", "            return Deferred[self.return_type](lambda: invoke(wait(operand)))  # forced here", None)
+# C10.parse
+m("C10", "context.py", '            elif self.code[self.pos] == ";":', '            elif self.code[self.pos] == "#":', "C10.parse")
+m("C10", "context.py", '            if self.code[self.pos].strip() == "":', '            if self.code[self.pos] == " " or self.code[self.pos] == "\\n":', "C10.parse")
